@@ -57,7 +57,7 @@ CLAIMED["C19"] = dict(
 
 CLAIMED["C04"] = dict(
   text="Bounded symbolic verification (SMT over go/ssa) of the REAL rtpDownTrack.Write (PacketFlags via pion, layer bookkeeping, adjustLayer, packetmap, RewritePacket) as an INDUCTIVE step from an arbitrary layer word satisfying the invariant (selected <= wanted/seen, fields <= 7): the invariant is preserved, the temporal layer falls only at a frame start and rises only at a keyframe or an up-switch point not above the wanted layer (or follows a new top layer), an in-order packet above the selected layer is withheld and all others forwarded; plus losslessness of the 32-bit packing. Bitrate estimate and clock are arbitrary, so every adjustLayer outcome is covered.",
-  note="Bounds: one VP8 packet (single-packet frame shape with 15-bit picture id and TID octet), tid 0..3, all seqnos/pids/flags/layer words. NOT yet encoded: VP9 spatial-layer switching, updateRate's AIMD clamp, requestedTracks/replaceTracks limitSid (video-low), interleavings with RTCP feedback (the arbitrary pre-state covers any prior feedback, not a store racing between Write's load and store). Function-level stubs: TrackLocalStaticRTP.Write (capturing model), Estimator.Estimate/Accumulate, rtptime.Jiffies - natively intercepted for replay by overlaying patched copies of their source files (hook variables), nothing in /repo is touched. Trusted: go/ssa, gosmt, z3/cvc5.",
+  note="Bounds: one VP8 packet (single-packet frame shape with 15-bit picture id and TID octet), tid 0..3, all seqnos/pids/flags/layer words. Also: replaceTracks stores the video-low limit on an existing connection from an arbitrary layer state; requestedTracks' limitSid rule is in C07. NOT yet encoded: VP9 spatial-layer switching through Write, updateRate's AIMD clamp, interleavings with RTCP feedback (the arbitrary pre-state covers any prior feedback, not a store racing between Write's load and store). Function-level stubs: TrackLocalStaticRTP.Write (capturing model), Estimator.Estimate/Accumulate, rtptime.Jiffies - natively intercepted for replay by overlaying patched copies of their source files (hook variables), nothing in /repo is touched. Trusted: go/ssa, gosmt, z3/cvc5.",
   technique="inductive-step symbolic execution of go/ssa with SMT (z3/cvc5); function stubs replayed natively through source-overlay hooks",
   ref="4-C04")
 
@@ -111,6 +111,12 @@ CLAIMED["C16"] = dict(
   note="Bounds: K=3 (thorough 4) over an 8-operation vocabulary, 4x3 editor pairs. NOT decided (stated plainly): failure of any file-system call (the roll-back paths) and a crash at each step of rewrite (the 'atomic replacement' clause) - fault/crash injection was deliberately left out of the ghost FS because such counterexamples cannot be replayed natively; truly concurrent editors (exclusion rests on the mutex; sequential composition is what is checked); JSON syntax (a file is the sequence of values handed to the encoder); mtime granularity of real file systems. Trusted: go/ssa, gosmt and its ghost FS, z3/cvc5.",
   technique="bounded symbolic execution of go/ssa with SMT over a ghost file-system model; native replay on the real file system",
   ref="4-C16")
+
+CLAIMED["C07"] = dict(
+  text="Symbolic execution (SMT over go/ssa) of the decision kernels of stream offering, over an exhaustively enumerated finite vocabulary: the REAL requestedTracks against the property's own rule for every request list of 0..3 words over {audio, video, video-low, other} and every list of 0..3 audio/video tracks; the REAL handleAction(pushConnAction) -> pushDownConn for every combination of stream label, default request entry, per-label request entry, track list and replacement: the stream is offered iff its label's entry (or, only if the label has no entry at all, the default) requests something that exists, with exactly those tracks and the publisher's stream id; otherwise exactly one close; a replaced stream is removed and closed; nothing for another group or a client that has not joined.",
+  note="This is the smallest part of C07 and is labelled as such: NOT encoded are delUpConn's fan-out of closes when a publisher closes/leaves/is kicked/loses 'present' (needs rtpUpConnection with pion), the 200 ms request coalescing goroutine, real negotiation (ICE, SDP), delivery over websockets and every interleaving of several clients - the property's schedules quantifier is not addressed at all. addDownConn / replaceTracks / negotiate / delDownConn are recording models (natively intercepted by source-overlay hooks). Bounds: push-decision W=T=2 in quick, 3 in thorough. Trusted: go/ssa, gosmt, z3/cvc5.",
+  technique="symbolic execution of go/ssa with SMT over an exhaustively enumerated finite vocabulary of requests and track lists (decision kernels only)",
+  ref="4-C07")
 
 NOT_APPLICABLE = {
 }
